@@ -142,6 +142,9 @@ impl TaskPool {
 
 impl Drop for TaskPool {
     fn drop(&mut self) {
+        // hold the queue lock: a worker that has already looked at `active_tasks` but is not
+        // waiting yet would otherwise miss this wake-up and stay parked for ever
+        let _todo = self.sharing.todo.lock();
         self.sharing
             .active_tasks
             .store(999_999_999, Ordering::Release);
